@@ -28,7 +28,8 @@ FAULTS = [
     "@meta \"@SIZEOF\" \"abc\"\nx1:\n@endmeta\n@dw @sizeof x1", "@meta \"@SIZEOF\" \"\"\nx2:\n@endmeta\n@dw @sizeof x2", "@meta \"@SIZEOF\" \"99999999999\"\nx3:\n@endmeta\n@dw @sizeof x3",
     "@meta \"@SIZEOF\" \"-5\"\nx4:\n@endmeta\n@dw @sizeof x4", "@meta \"@SIZEOF\" \"+5\"\nx5:\n@endmeta\n@db @sizeof x5", "@sizeof", "@db @sizeof nosuch", "@db @sizeof 5", "@defl zz, @sizeof qq\nqq:",
     "@macro", "@macro m9", "@macro m9,", "@macro m9, 2, pa", "@macro m9, 99999\n@endmacro", "@macro m9, 0\n@db 1", "@macro m9, 1, pa\n@db pa\n@endmacro\nm9", "@macro m9, 1, pa\n@db pa\n@endmacro\nm9 {",
-    "@macro m9, 2, pa, pb\n@db pa, pb\n@endmacro\nm9 1", "@macro m9, 0\n@endmacro\n@macro m9, 0\n@endmacro",
+    "@macro m9, 2, pa, pb\n@db pa, pb\n@endmacro\nm9 1", "@macro m9, 1, pa\n@db 1\npa\n@db 2\n@endmacro\nm9 {}", "@macro m9, 1, pa\n@db 1\npa\n@db 2\n@endmacro\nm9 { }\nm9 { ; nothing\n }",
+    "@macro m9, 2, pa, pb\npa\n@db 7\npb\n@endmacro\nm9 {}, {}", "@macro m9, 1, pa\n@db 1 pa\n@endmacro\nm9 {}", "@macro m9, 0\n@endmacro\n@macro m9, 0\n@endmacro",
     "@each", "@each vv", "@each vv,", "@each vv, {", "@each vv, { 1 2", "@each vv, { 1 }\n@db vv", "@each vv, 5\n@db vv\n@endeach", "@each 5, { 1 }\n@endeach",
     "@if", "@if 1", "@if nosuch\n@endif", "@if 0\n@if 0\n@endif", "@struct", "@struct S1\n@struct T1", "@struct S1\n fa", "@struct S1\n fa 1\n fa 2\n@endstruct", "@struct S1\n fa nosuch\n@endstruct",
     "@struct S1\n@ds -5\n@align $7fffffff\n@endstruct", "@struct S1\n@align 0\n@endstruct", "@struct S1\n fa -1\n@endstruct\n@db S1",
